@@ -188,7 +188,45 @@ class CTracer(Tracer):
             return self._derived(args[0])
         return NotImplemented
 
+    @staticmethod
+    def _domain_transform(node):
+        """the multi-domain idiom `torch.cat([op(t, dim=…) for t in torch.split(X.permute(0, 2, 3, 1).contiguous(), 2, -1)],
+        dim=-1).permute(0, 3, 1, 2)` (a shape-preserving operator applied to every complex pair of channels, channels moved
+        last and back): the AST node of `X`, else None"""
+        if not (isinstance(node.func, ast.Attribute) and node.func.attr == "permute"
+                and [ast.unparse(a) for a in node.args] == ["0", "3", "1", "2"]):
+            return None
+        cat = node.func.value
+        if not (isinstance(cat, ast.Call) and ast.unparse(cat.func) in ("torch.cat", "torch.concatenate", "torch.concat")):
+            return None
+        kw = {k.arg: k.value for k in cat.keywords}
+        lst = kw.get("tensors", cat.args[0] if cat.args else None)
+        dim = kw.get("dim", cat.args[1] if len(cat.args) > 1 else None)
+        if not isinstance(lst, ast.ListComp) or dim is None or ast.unparse(dim) != "-1" or len(lst.generators) != 1:
+            return None
+        g = lst.generators[0]
+        it, elt = g.iter, lst.elt
+        if g.ifs or not (isinstance(it, ast.Call) and ast.unparse(it.func) == "torch.split" and len(it.args) == 3
+                         and [ast.unparse(a) for a in it.args[1:]] == ["2", "-1"]):
+            return None
+        if not (isinstance(elt, ast.Call) and elt.args and isinstance(elt.args[0], ast.Name) and isinstance(g.target, ast.Name)
+                and elt.args[0].id == g.target.id and ast.unparse(elt.func) in ("self.forward_operator", "self.backward_operator")):
+            return None
+        src = it.args[0]
+        if isinstance(src, ast.Call) and isinstance(src.func, ast.Attribute) and src.func.attr == "contiguous" and not src.args:
+            src = src.func.value
+        if not (isinstance(src, ast.Call) and isinstance(src.func, ast.Attribute) and src.func.attr == "permute"
+                and [ast.unparse(a) for a in src.args] == ["0", "2", "3", "1"]):
+            return None
+        return src.func.value
+
     def call(self, node, env, glob):
+        src = self._domain_transform(node)
+        if src is not None:
+            tok = self.eval(src, env, glob)
+            if not isinstance(tok, CTok):
+                raise Untranslatable("domain transform of something that is not a tensor")
+            return self._derived(tok)
         ftxt = ast.unparse(node.func)
         if ftxt in ("torch.cat", "torch.concatenate", "torch.concat"):
             args = [self.eval(a, env, glob) for a in node.args]
